@@ -109,6 +109,29 @@ pub fn poll_after_done_panics<F: std::future::Future>(fut: std::pin::Pin<&mut F>
     r.is_err()
 }
 
+/// Deep wait queues (DESIGN §11, correction 20): `n` futures pending at the same time, one or two *interior* ones
+/// cancelled (so that both neighbours of the removed node are interior nodes as well), the rest served oldest
+/// first or polled newest first. Returns (n, cancelled slots in cancellation order, newest first).
+pub fn deep_queue_patterns(ns: &[u8]) -> Vec<(u8, Vec<u8>, bool)> {
+    let mut v = vec![];
+    for &n in ns {
+        for c in 1..n - 1 {
+            v.push((n, vec![c], false));
+            v.push((n, vec![c], true));
+        }
+        for c in 1..n - 2 {
+            v.push((n, vec![c, c + 1], false));
+            v.push((n, vec![c + 1, c], true));
+        }
+    }
+    v
+}
+
+/// The slots of a deep-queue pattern that stay, in arrival order.
+pub fn deep_rest(n: u8, cancel: &[u8]) -> Vec<u8> {
+    (0..n).filter(|i| !cancel.contains(i)).collect()
+}
+
 pub fn fl(b: u8) -> &'static str {
     if b == 0 {
         "A"
